@@ -44,7 +44,11 @@ func expected(c *c01.Cfg, rows []string, a, b int, first, last bool) string {
 		}
 	}
 	if c.Browse >= 1 && !last {
-		menu = append(menu, c.NextSel+":"+c.NextTtl)
+		ttl := c.NextTtl
+		if c.Resolved != "" {
+			ttl = c.Resolved // the label as the resource resolves it
+		}
+		menu = append(menu, c.NextSel+":"+ttl)
 	}
 	if c.Browse >= 2 && !first {
 		menu = append(menu, c.PrevSel+":"+c.PrevTtl)
@@ -158,9 +162,6 @@ func Walk(v *vrt.Ctx) {
 		}
 		// S2, S3 and full row text: the page is exactly the documented one
 		want := expected(c, rows, a, b, j == 0, j == P-1)
-		if c.Resolved != "" {
-			continue // label text differs by construction; S1 and fit are asserted
-		}
 		if !anyEmpty {
 			v.Observe("page", out)
 			v.Observe("want", want)
